@@ -128,6 +128,7 @@ func getArrayPrototype() *Value {
 						}
 					}
 
+					verifCharge(len(this.Array) + 1)
 					// make a clone
 					clone := make([]*Cell, len(this.Array))
 					for i, item := range this.Array {
@@ -242,6 +243,7 @@ func getStrPrototype() *Value {
 						return nil, err
 					}
 
+					verifCharge(len(*this.Str)/32 + 1)
 					splits := NewValue(strings.Split(*this.Str, *str.Str))
 					return &splits, nil
 				},
